@@ -32,4 +32,7 @@ def run(prog: Program, col: Collector, tier: str, refs: Optional[Refs] = None, c
     algebra.r_pushdown(prog, col, refs, cat, "R08.6")
     algebra.r_same_op(prog, col, refs, cat, "R08.7")
     algebra.r_scope_extrusion(prog, col, refs, cat, "R08.8")
+    # the (logaddexp, add) semiring with -inf weights: its sum and the log-space einsum kernel must be exact at -inf and NaN-free
+    from . import numerics
+    numerics.run(prog, col, refs, cat, rule_log="R08.9", rule_safe=None)
     return col
